@@ -89,6 +89,15 @@ class KGen:
             else:
                 self.pick_neg_states()
             return
+        if self.family == "altchain":
+            self.skeleton = False
+            self.altchain_family()
+            self.check_one_effect_per_ground_fluent()
+            if self.contingent:
+                self.add_constraints()
+            else:
+                self.pick_altchain_states()
+            return
         if self.family == "relost":
             self.skeleton = False
             self.relost_family()
@@ -210,6 +219,85 @@ class KGen:
         elif r < 0.75:
             states.reverse()
         else:
+            rng.shuffle(states)
+        self.bits = states
+        for fe, b in zip(self.gfl, states[0]):
+            self.problem.set_initial_value(fe, b)
+
+    def altchain_family(self):
+        """A relevance chain x0 -> x1 -> ... -> xk (k = 2 or 3) whose steps ALTERNATE between
+          E: an effect rule            "if x_i is good then x_{i+1} := good"       (x_i -> x_{i+1} directly), and
+          C: a complement-derived step "if x_i is bad  then x_{i+1} := bad"        (not x_i -> not x_{i+1}, so x_i -> x_{i+1}
+                                                                                   only by the complement rule),
+        starting with either kind; "good" is a random polarity per atom.  The goal is "x_k is good"; the possible states
+        differ only on x0.  x0 is relevant to the goal only through a composition of effect-derived and complement-derived
+        pairs, i.e. only if the relevance loop really iterates to a fixpoint; the state where x0 is bad is the one that
+        must be kept."""
+        from unified_planning.model import InstantaneousAction
+        em, rng, p = self.em, self.rng, self.problem
+        atoms = list(self.gfl)
+        rng.shuffle(atoms)
+        k = rng.choice([2, 2, 3])
+        kinds = []
+        t = rng.choice("EC")
+        for _ in range(k):
+            kinds.append(t)
+            t = "C" if t == "E" else "E"
+        need = k + 1 + (1 if kinds[-1] == "C" else 0)
+        if len(atoms) < need:
+            raise _Retry()
+        xs = atoms[:k + 1]
+        h = atoms[k + 1] if kinds[-1] == "C" else None
+        pol = [rng.random() < 0.7 for _ in xs]
+
+        def lit(i, good):
+            return xs[i] if pol[i] == good else em.Not(xs[i])
+        acts = []
+        for i, kind in enumerate(kinds):
+            a = InstantaneousAction("c%d" % i, OrderedDict(), self.env)
+            if kind == "E":
+                a.add_effect(xs[i + 1], pol[i + 1], lit(i, True))
+            else:
+                a.add_effect(xs[i + 1], not pol[i + 1], lit(i, False))
+            if i == k - 1 and h is not None:
+                a.add_effect(h, True)                      # the last (C) step is needed: it achieves h
+            acts.append(a)
+        p.add_goal(lit(k, True))
+        if h is not None:
+            p.add_goal(h)
+        if rng.random() < 0.2:
+            x = InstantaneousAction("a0", OrderedDict(), self.env)
+            self.add_effect(x, [])
+            acts.append(x)
+        rng.shuffle(acts)
+        for a in acts:
+            p.add_action(a)
+            self.actions.append(a)
+        # initial values: the target of an E step starts bad (the step must establish it), of a C step starts good
+        self.ac_fixed = {}
+        for i, kind in enumerate(kinds):
+            self.ac_fixed[xs[i + 1]] = (not pol[i + 1]) if kind == "E" else pol[i + 1]
+        if h is not None:
+            self.ac_fixed[h] = False
+        self.ac_x0, self.ac_pol0, self.ac_kinds = xs[0], pol[0], "".join(kinds)
+
+    def pick_altchain_states(self):
+        rng = self.rng
+        base = [self.ac_fixed.get(fe, rng.random() < 0.25) for fe in self.gfl]
+        i0 = self.gfl.index(self.ac_x0)
+        easy, hard = list(base), list(base)
+        easy[i0], hard[i0] = self.ac_pol0, not self.ac_pol0
+        states = [tuple(easy), tuple(hard)]               # the "easy" state first
+        free = [i for i, fe in enumerate(self.gfl) if fe not in self.ac_fixed and i != i0]
+        if free and rng.random() < 0.3:
+            t = list(rng.choice(states))
+            i = rng.choice(free)
+            t[i] = not t[i]
+            states.append(tuple(t))
+        r = rng.random()
+        if 0.6 <= r < 0.8:
+            states.reverse()
+        elif r >= 0.8:
             rng.shuffle(states)
         self.bits = states
         for fe, b in zip(self.gfl, states[0]):
@@ -485,6 +573,11 @@ class KGen:
                             hidden.append(a)
                 models = independent_models(self.gfl, hidden, cons, {})
                 break
+            if self.family == "altchain":
+                cons = [("unknown", [self.ac_x0])]
+                hidden = [self.ac_x0]
+                models = independent_models(self.gfl, hidden, cons, {})
+                break
             if self.family == "relost":
                 cons = [("unknown", [self.rl_u])]
                 others = [fe for fe in self.gfl if fe not in self.relost_fixed() and fe != self.rl_u]
@@ -527,6 +620,8 @@ class KGen:
                 known[fe] = rng.random() < 0.3 and not (self.family == "neg" and fe == self.neg_g)
                 if self.family == "relost" and fe in self.relost_fixed():
                     known[fe] = self.relost_fixed()[fe]
+                if self.family == "altchain" and fe in self.ac_fixed:
+                    known[fe] = self.ac_fixed[fe]
                 p.set_initial_value(fe, known[fe])
         for kind, lits in cons:
             if kind == "unknown":
@@ -826,7 +921,37 @@ def hand_corpus():
         build.__name__ = "relost_" + kind
         return build
 
+    def altchain(kinds, easy_first=True):
+        # relevance chain x0 -> x1 -> ... -> xk alternating effect-derived (E: if x_i then x_{i+1} := true) and
+        # complement-derived (C: if not x_i then x_{i+1} := false) steps; goal x_k; the states differ only on x0.
+        # The x0-false state is NOT dominated, but that is visible only when effect- and complement-derived pairs compose.
+        def build(env):
+            em = env.expression_manager
+            k = len(kinds)
+            p, fs = base(env, "altchain", ["x%d" % i for i in range(k + 1)] + ["h"])
+            xs, h = fs[:k + 1], fs[k + 1]
+            for i, kind in enumerate(kinds):
+                a = InstantaneousAction("c%d" % i, _env=env)
+                if kind == "E":
+                    a.add_effect(xs[i + 1], True, xs[i]())
+                else:
+                    a.add_effect(xs[i + 1], False, em.Not(xs[i]()))
+                if i == k - 1 and kind == "C":
+                    a.add_effect(h, True)
+                p.add_action(a)
+            p.add_goal(xs[k]())
+            if kinds[-1] == "C":
+                p.add_goal(h())
+            init = [False] + [kind == "C" for kind in kinds] + [False]
+            easy, hard = list(init), list(init)
+            easy[0] = True
+            states = [tuple(easy), tuple(hard)] if easy_first else [tuple(hard), tuple(easy)]
+            return p, states
+        build.__name__ = "altchain_%s%s" % (kinds, "" if easy_first else "_hard_first")
+        return build
+
     builders = [case_split_precondition, merge_needed, cancellation_needed, dominated_state,
+                altchain("EC"), altchain("CE"), altchain("ECE"), altchain("CEC"), altchain("EC", False),
                 relost("goal"), relost("precondition"), relost("negative"),
                 neg_goal("quiet-first", False, False), neg_goal("firing-first", False, False),
                 neg_goal("quiet-first", True, False), neg_goal("quiet-first", False, True)]
